@@ -452,11 +452,13 @@ def siteAllowedIn (shape : String) (file : String) : Bool :=
 theorem panicSites_placed :
     Generated.panicSites.all (fun s => siteAllowedIn s.2.2.1 s.1) = true := by decide
 
-/-- Termination of the code itself: the only recursion in /repo/src is `dereference` calling itself
-    once, on the referent of a `Type::Reference` (a strictly smaller type), and there is no `loop` /
-    `while`; every other iteration is a `for` over a finite collection. -/
+/-- Termination of the code itself: the only recursions in /repo/src are `dereference` calling itself
+    once on the referent of a `Type::Reference`, and `ungroup` (added by the repair of the macro-fragment
+    defect, `fix:` commit in /repo) calling itself once on the element of a `Type::Group` — both on a
+    strictly smaller type that syn has already parsed; and there is no `loop` / `while`; every other
+    iteration is a `for` over a finite collection. -/
 theorem recursion_sites :
-    Generated.selfCalls = [("common/type.rs", "dereference")] ∧ Generated.openLoops = [] := by decide
+    Generated.selfCalls = [("common/type.rs", "ungroup"), ("common/type.rs", "dereference")] ∧ Generated.openLoops = [] := by decide
 
 /-! ### the handlers and `derive_input_handler` as a whole
 
